@@ -154,6 +154,17 @@ fn list_ops(kind: usize) -> Vec<Op> {
             })));
         }
     }
+    // the container shown in the middle of a history (printing must not leave marks behind)
+    ops.push(mk("print(l)".into(), "show", std::sync::Arc::new(|l, out| out.push(show_list(l)))));
+    // a call with an effect next to operands that are lowered to statements (if-value, and): left to right
+    ops.push(mk("print((list.pop(l) == Maybe.None, if list.len(l) == 0 do 0 else do 1 end))".into(), "pop-beside-if-len", std::sync::Arc::new(|l, out| {
+        let v = l.pop();
+        out.push(format!("({}, {})", v.is_none(), if l.is_empty() { 0 } else { 1 }));
+    })));
+    ops.push(mk("print(list.pop(l) != Maybe.None and list.len(l) == 0)".into(), "pop-and-len", std::sync::Arc::new(|l, out| {
+        let v = l.pop();
+        out.push(format!("{}", v.is_some() && l.is_empty()));
+    })));
     // library values are interchangeable with source values
     let first = dom[0].clone();
     let f2 = first.clone();
